@@ -5,6 +5,7 @@ pub mod c03;
 pub mod c04;
 pub mod c05;
 pub mod c06;
+pub mod c07;
 pub mod c08;
 pub mod c09;
 pub mod c12;
@@ -21,6 +22,7 @@ pub fn run(ctx: &Ctx) -> bool {
         "C04" => c04::run(ctx),
         "C05" => c05::run(ctx),
         "C06" => c06::run(ctx),
+        "C07" => c07::run(ctx),
         "C08" => c08::run(ctx),
         "C09" => c09::run(ctx),
         "C12" => c12::run(ctx),
@@ -42,6 +44,7 @@ fn replay_one(ctx: &Ctx, sub: &str, input: &serde_json::Value) -> Option<Result<
         "C04" => c04::replay(ctx, sub, input),
         "C05" => c05::replay(ctx, sub, input),
         "C06" => c06::replay(ctx, sub, input),
+        "C07" => c07::replay(ctx, sub, input),
         "C08" => c08::replay(ctx, sub, input),
         "C09" => c09::replay(ctx, sub, input),
         "C12" => c12::replay(ctx, sub, input),
